@@ -100,6 +100,8 @@ class Registry:
                 if not isinstance(v, E.Ref):
                     st.assume(v.ty.wf(v.t))
             return E.Ref(E.TRef(ty.cls), oid)
+        if hasattr(ty, "make"):
+            return ty.make(eng, st, name)
         v = ty.fresh(name)
         st.assume(ty.wf(v.t))
         return v
